@@ -49,6 +49,103 @@ pub struct NamespaceEntry {
 }
 //@end
 
+//@extract name::Prefix | src/name.rs :: struct Prefix | serves=C05
+ #[derive(Clone, Copy)]
+ pub struct Prefix<'a>(pub &'a [u8]);
+//@end
+//@extract name::Namespace | src/name.rs :: struct Namespace | serves=C05
+ #[derive(Clone, Copy)]
+ pub struct Namespace<'a>(pub &'a [u8]);
+//@end
+//@extract name::ResolveResult | src/name.rs :: enum ResolveResult | serves=C05
+ pub enum ResolveResult<'ns> {
+    /// Qualified name does not contain prefix, and resolver does not define
+    /// default namespace, so name is not bound to any namespace
+    Unbound,
+    /// [`Prefix`] resolved to the specified namespace
+    Bound(Namespace<'ns>),
+    /// Specified prefix was not found in scope
+    Unknown(Vec<u8>),
+}
+//@end
+
+/// `#[derive(PartialEq)]` of Prefix, written out (trusted transcription of the derive): compares the bytes
+impl<'a> vstd::std_specs::cmp::PartialEqSpecImpl for Prefix<'a> {
+    open spec fn obeys_eq_spec() -> bool { true }
+    open spec fn eq_spec(&self, o: &Self) -> bool { self.0@ == o.0@ }
+}
+impl<'a> PartialEq for Prefix<'a> {
+    fn eq(&self, o: &Self) -> (r: bool)
+        ensures r == (self.0@ == o.0@)
+    {
+        let r = self.0 == o.0;
+        proof { if r { assert(self.0@ =~= o.0@); } }
+        r
+    }
+}
+
+impl<'a> Prefix<'a> {
+//@extract name::Prefix::into_inner | src/name.rs :: impl<'a> Prefix<'a> :: fn into_inner | serves=C05
+ pub fn into_inner(self) -> (r: &'a [u8])
+        ensures r@ == self.0@
+ {
+        self.0
+    }
+//@end
+}
+
+impl<'a> QName<'a> {
+//@extract name::QName::prefix | src/name.rs :: impl<'a> QName<'a> :: fn prefix | serves=C05
+ pub fn prefix(&self) -> (r: Option<Prefix<'a>>)
+        ensures pfx_view(r) == spec_prefix_of(self.0@)
+ {
+        proof { lemma_prefix_of(self.0@); }
+        self.index().map(|i: usize| -> (q: Prefix<'a>) requires first_colon(self.0@, i as int) ensures q.0@ == self.0@.subrange(0, i as int) { Prefix(&self.0[..i]) })
+    }
+//@end
+//@extract name::QName::decompose | src/name.rs :: impl<'a> QName<'a> :: fn decompose | serves=C05
+ pub fn decompose(&self) -> (r: (LocalName<'a>, Option<Prefix<'a>>))
+        ensures r.0.0@ == spec_local_name(self.0@), pfx_view(r.1) == spec_prefix_of(self.0@)
+ {
+        proof { lemma_prefix_of(self.0@); lemma_local_name(self.0@); axiom_slice_len(self.0); }
+        match self.index() {
+            None => (LocalName(self.0), None),
+            Some(i) => (LocalName(&self.0[i + 1..]), Some(Prefix(&self.0[..i]))),
+        }
+    }
+//@end
+}
+
+impl NamespaceEntry {
+//@extract name::NamespaceEntry::prefix | src/name.rs :: impl NamespaceEntry :: fn prefix | serves=C05
+    pub fn prefix<'b>(&self, ns_buffer: &'b [u8]) -> (r: Option<Prefix<'b>>)
+        requires self.start + self.prefix_len + self.value_len <= ns_buffer@.len()
+        ensures pfx_view(r) == self.spec_prefix(ns_buffer@)
+    {
+        proof { axiom_slice_len(ns_buffer); }
+        if self.prefix_len == 0 {
+            None
+        } else {
+            Some(Prefix(&ns_buffer[self.start..self.start + self.prefix_len]))
+        }
+    }
+//@end
+//@extract name::NamespaceEntry::namespace | src/name.rs :: impl NamespaceEntry :: fn namespace | serves=C05
+    pub fn namespace<'ns>(&self, buffer: &'ns [u8]) -> (r: ResolveResult<'ns>)
+        requires self.start + self.prefix_len + self.value_len <= buffer@.len()
+        ensures rr_view(r) == (if self.value_len == 0 { AbsRes::Unbound } else { AbsRes::Bound(self.spec_value(buffer@)) })
+    {
+        proof { axiom_slice_len(buffer); }
+        if self.value_len == 0 {
+            ResolveResult::Unbound
+        } else {
+            let start = self.start + self.prefix_len;
+            ResolveResult::Bound(Namespace(&buffer[start..start + self.value_len]))
+        }
+    }
+//@end
+}
+
 //@extract ns_reader::NsReader | src/reader/ns_reader.rs :: struct NsReader | serves=C05
  pub struct NsReader<R> {
     /// An XML reader
@@ -74,6 +171,85 @@ impl NamespaceResolver {
             final(self).bindings@.subrange(0, old(self).bindings@.len() as int) == old(self).bindings@,
             forall|i: int| old(self).bindings@.len() <= i < final(self).bindings@.len() ==> (#[trigger] final(self).bindings@[i]).level == final(self).nesting_level,
     { unimplemented!() }
+
+//@extract name::NamespaceResolver::resolve | src/name.rs :: impl NamespaceResolver :: fn resolve | serves=C05
+ pub fn resolve<'n>(
+        &self,
+        name: QName<'n>,
+        use_default: bool,
+    ) -> (r: (ResolveResult, LocalName<'n>))
+        requires self.wf()
+        ensures rr_view(r.0) == spec_resolve(self.bindings@, self.buffer@, spec_prefix_of(name.0@), use_default),
+            r.1.0@ == spec_local_name(name.0@),
+ {
+        let (local_name, prefix) = name.decompose();
+        (self.resolve_prefix(prefix, use_default), local_name)
+    }
+//@end
+//@extract name::NamespaceResolver::find | src/name.rs :: impl NamespaceResolver :: fn find | serves=C05
+ pub fn find(&self, element_name: QName) -> (r: ResolveResult)
+        requires self.wf()
+        ensures rr_view(r) == spec_resolve(self.bindings@, self.buffer@, spec_prefix_of(element_name.0@), true)
+ {
+        self.resolve_prefix(element_name.prefix(), true)
+    }
+//@end
+//@extract name::NamespaceResolver::resolve_prefix | src/name.rs :: impl NamespaceResolver :: fn resolve_prefix | serves=C05
+//@rewrite self.bindings .iter() .rev() .find_map(|n| ==> shim::rev_find_map(self.bindings.as_slice(), |n: &NamespaceEntry|
+    pub fn resolve_prefix(&self, prefix: Option<Prefix>, use_default: bool) -> (r: ResolveResult)
+        requires self.wf()
+        // C05: the nearest declaration in scope decides (see spec_resolve)
+        ensures rr_view(r) == spec_resolve(self.bindings@, self.buffer@, pfx_view(prefix), use_default)
+    {
+        let ghost bs = self.bindings@;
+        let ghost buf = self.buffer@;
+        let ghost pv = pfx_view(prefix);
+        let found = shim::rev_find_map(self.bindings.as_slice(), |n: &NamespaceEntry| -> (o: Option<ResolveResult<'_>>)
+            requires n.start + n.prefix_len + n.value_len <= self.buffer@.len()
+            ensures (match o { Some(x) => Some(rr_view(x)), None => None::<AbsRes> }) == n.decides(buf, pv, use_default)
+            { match (n.prefix(&self.buffer), prefix) {
+                // This is default namespace definition and name has no explicit prefix
+                (None, None) if use_default => Some(n.namespace(&self.buffer)),
+                (None, None) => Some(ResolveResult::Unbound),
+
+                // One part has prefix but other is not -> skip
+                (None, Some(_)) => None,
+                (Some(_), None) => None,
+
+                // Prefixes does not match -> skip
+                (Some(definition), Some(usage)) if definition != usage => None,
+
+                // Prefixes the same, entry defines binding reset (corresponds to `xmlns:p=""`)
+                _ if n.value_len == 0 => Some(Self::maybe_unknown(prefix)),
+                // Prefixes the same, returns corresponding namespace
+                _ => Some(n.namespace(&self.buffer)),
+            } });
+        proof {
+            if found is Some {
+                let xv = rr_view(found->Some_0);
+                let i = choose|i: int| 0 <= i < bs.len() && bs[i].decides(buf, pv, use_default) == Some(xv)
+                    && forall|j: int| i < j < bs.len() ==> (#[trigger] bs[j]).decides(buf, pv, use_default) is None;
+                lemma_resolve_at(bs, buf, pv, use_default, i);
+            } else {
+                lemma_resolve_none(bs, buf, pv, use_default);
+            }
+        }
+        found
+            .unwrap_or_else(|| -> (q: ResolveResult<'_>) ensures rr_view(q) == (match pv { Some(p) => AbsRes::Unknown(p), None => AbsRes::Unbound }) { Self::maybe_unknown(prefix) })
+    }
+//@end
+//@extract name::NamespaceResolver::maybe_unknown | src/name.rs :: impl NamespaceResolver :: fn maybe_unknown | serves=C05
+    pub fn maybe_unknown(prefix: Option<Prefix>) -> (r: ResolveResult<'static>)
+        // an undeclared prefix is reported as unknown; an unprefixed name is unbound
+        ensures match prefix { Some(p) => rr_view(r) matches AbsRes::Unknown(a) && a =~= p.0@, None => rr_view(r) is Unbound }
+    {
+        proof { axiom_cloned_u8(); }
+        match prefix {
+            Some(p) => ResolveResult::Unknown(p.into_inner().to_vec()),
+            None => ResolveResult::Unbound,
+        }
+    }
+//@end
 
 //@extract name::NamespaceResolver::pop | src/name.rs :: impl NamespaceResolver :: fn pop | serves=C05
 //@rewrite self.bindings.iter().rposition(|n| ==> shim::rposition_ref(self.bindings.as_slice(), |n: &NamespaceEntry|
@@ -147,6 +323,32 @@ impl<R> NsReader<R> {
             self.ns_resolver.pop();
             self.pending_pop = false;
         }
+    }
+//@end
+
+//@extract ns_reader::NsReader::resolve | src/reader/ns_reader.rs :: impl<R> NsReader<R> :: fn resolve | serves=C05
+ pub(crate) fn resolve<'n>(&self, name: QName<'n>, attribute: bool) -> (r: (ResolveResult, LocalName<'n>))
+        requires self.ns_resolver.wf()
+        // unprefixed attributes are never in the default namespace
+        ensures rr_view(r.0) == spec_resolve(self.ns_resolver.bindings@, self.ns_resolver.buffer@, spec_prefix_of(name.0@), !attribute),
+ {
+        self.ns_resolver.resolve(name, !attribute)
+    }
+//@end
+//@extract ns_reader::NsReader::resolve_element | src/reader/ns_reader.rs :: impl<R> NsReader<R> :: fn resolve_element | serves=C05
+ pub(crate) fn resolve_element<'n>(&self, name: QName<'n>) -> (r: (ResolveResult, LocalName<'n>))
+        requires self.ns_resolver.wf()
+        ensures rr_view(r.0) == spec_resolve(self.ns_resolver.bindings@, self.ns_resolver.buffer@, spec_prefix_of(name.0@), true),
+ {
+        self.ns_resolver.resolve(name, true)
+    }
+//@end
+//@extract ns_reader::NsReader::resolve_attribute | src/reader/ns_reader.rs :: impl<R> NsReader<R> :: fn resolve_attribute | serves=C05
+ pub(crate) fn resolve_attribute<'n>(&self, name: QName<'n>) -> (r: (ResolveResult, LocalName<'n>))
+        requires self.ns_resolver.wf()
+        ensures rr_view(r.0) == spec_resolve(self.ns_resolver.bindings@, self.ns_resolver.buffer@, spec_prefix_of(name.0@), false),
+ {
+        self.ns_resolver.resolve(name, false)
     }
 //@end
 
